@@ -265,7 +265,7 @@ func NewGen(seed int64, g *GenesisSpec, naccts int, p Profile) *Gen {
 			`{"maxValidatorCnt":"3"}`, `{"maxValidatorCnt":"6","minValidatorStake":"3000000000000000000"}`, `{"slashRatio":"34"}`,
 			`{"rewardPerPower":"3000000000"}`, `{"signedBlocksWindow":"3","minSignedBlocks":"1"}`, `{"lazyApplyingBlocks":"1"}`,
 			`{"minSelfStakeRatio":"10"}`, `{"maxVotingPeriodBlocks":"4","minVotingPeriodBlocks":"1"}`,
-			`{"lazyRewardBlocks":"1"}`, `{"lazyRewardBlocks":"9"}`, `{"gasPrice":"0"}`, `{"maxValidatorCnt":"2"}`, `{"minValidatorStake":"9000000000000000000"}`,
+			`{"lazyRewardBlocks":"1"}`, `{"lazyRewardBlocks":"9"}`, `{"gasPrice":"0"}`, `{"minValidatorStake":"2500000000000000000"}`, `{"maxValidatorCnt":"2"}`, `{"minValidatorStake":"9000000000000000000"}`,
 		}}
 }
 
